@@ -424,7 +424,7 @@ impl Debug for FramesDebug {
 
 pub(crate) fn num_frames(frames: &[Frame], slice: Option<(usize, usize)>) -> usize {
 	if let Some((start, end)) = slice {
-		end - start
+		end.saturating_sub(start)
 	} else {
 		frames.len()
 	}
@@ -439,5 +439,6 @@ pub(crate) fn frame_at_index(
 		return None;
 	}
 	let start = slice.map(|(start, _)| start).unwrap_or_default();
-	Some(frames[index + start])
+	// a slice can extend past the end of the audio data
+	frames.get(index + start).copied()
 }
